@@ -44,7 +44,7 @@ def _run_files(ego, env, sd, files, tag, wrapped=True, both_opt=False):
     for n, b in enumerate(files):
         p = os.path.join(sd, "%s%d.ego" % (tag, n))
         with open(p, "w") as f:
-            f.write(egoctl.render(b, wrapped=wrapped))
+            f.write(egoctl.render(b, wrapped=wrapped, shift=vf.SEED))
         for opt in (("0", "2") if both_opt else (("0", "2")[n % 2],)):
             jobs.append(([ego, "run", "-o", opt, p], None, sd, env))
             meta.append((b, opt, p))
@@ -56,9 +56,12 @@ def _replay(chk, ego, env, sd):
     rep = json.load(open(os.environ["VERIF_REPLAY"]))["replay"]
     case = rep["case"]
     wrapped = rep.get("wrapped", True)
-    (b, opt, (rc, so, se), p), = _run_files(ego, env, sd, [[case]], "replay", wrapped=wrapped)[:1]
+    src = egoctl.render([case], wrapped=wrapped, shift=rep.get("shift", vf.SEED))
+    p = os.path.join(sd, "replay.ego")
+    open(p, "w").write(src)
+    rc, so, se = vf.run_many([([ego, "run", "-o", str(rep.get("opt", "0")), p], None, sd, env)], timeout=300)[0]
     obs = egoctl.observe(rc, so, se, 1)[0]
-    print(egoctl.render([case], wrapped=wrapped))
+    print(src)
     print("expected:", egoctl.masked(case["out"], case["mask"]), case["status"], case["pv"])
     print("observed:", egoctl.masked(obs["out"], case["mask"]), obs["status"], obs["pv"], se.strip()[:300])
     if not egoctl.agree(case, obs):
@@ -164,11 +167,11 @@ def run():
             obs = egoctl.observe(rc, so, se, len(b))
             if firstobs is None and rc == 0:
                 firstobs = (b, obs)
-            for c, o in zip(b, obs):
+            for pos, (c, o) in enumerate(zip(b, obs)):
                 nrun += 1
                 nlines += len(c["out"]) + 1
                 if not egoctl.agree(c, o):
-                    suspects.append((c, opt, {"observed_in_shared_process": o, "process_rc": rc, "stderr": se[-400:],
+                    suspects.append((c, opt, {"shift": vf.SEED + pos, "observed_in_shared_process": o, "process_rc": rc, "stderr": se[-400:],
                                               "shared_with": [x["key"] for x in b], "file": egoctl.render(b)}))
         # a case that differs inside a shared process is re-run alone before it is blamed
         seen, alone = set(), []
@@ -180,7 +183,7 @@ def run():
             jobs = []
             for n, (c, opt, ctx) in enumerate(alone):
                 p = os.path.join(sd, "s%d.ego" % n)
-                open(p, "w").write(egoctl.render([c]))
+                open(p, "w").write(egoctl.render([c], shift=ctx["shift"]))     # same loop forms as in the shared file
                 jobs.append(([ego, "run", "-o", opt, p], None, sd, env))
             for (c, opt, ctx), (rc, so, se) in zip(alone, vf.run_many(jobs, timeout=300)):
                 o = egoctl.observe(rc, so, se, 1)[0]
@@ -190,14 +193,14 @@ def run():
                     chk.violation("interference/" + ("+".join(sorted(c["feat"])) or "plain"),
                                   "a case agrees with the specification when run alone but not after other cases in the "
                                   "same process (state left behind by an earlier case): %s" % c["key"],
-                                  {"case": c, "opt": opt, "wrapped": True, "context": ctx})
+                                  {"case": c, "opt": opt, "wrapped": True, "shift": ctx["shift"], "context": ctx})
                 else:
                     i, e, a = egoctl.first_diff(c, o)
                     chk.violation(_key(c, o), "program [%s] (optimizer %s): specification expects line %d = %s and end '%s', "
                                   "real interpreter printed %s and ended '%s' %s"
                                   % (c["key"], opt, i + 1, e, c["status"], a, o["status"], se.strip()[:200]),
-                                  {"case": c, "opt": opt, "wrapped": True, "observed": o,
-                                   "program": egoctl.render([c])})
+                                  {"case": c, "opt": opt, "wrapped": True, "observed": o, "shift": ctx["shift"],
+                                   "program": egoctl.render([c], shift=ctx["shift"])})
         # unwrapped: an error / panic that leaves the entry function ends the program
         pool = [c for c in cases if not c["feat"]]
         solo = []
@@ -217,7 +220,7 @@ def run():
                               "and end '%s', real interpreter printed %s and ended '%s' %s"
                               % (c["key"], i + 1, e, c["status"], a, o["status"], se.strip()[:200]),
                               {"case": c, "opt": opt, "wrapped": False, "observed": o,
-                               "program": egoctl.render([c], wrapped=False)})
+                               "shift": vf.SEED, "program": egoctl.render([c], wrapped=False, shift=vf.SEED)})
         # 5. binding self-test: the comparison must reject observations that belong to another case
         if firstobs is None:
             if not chk.cands:
